@@ -293,7 +293,7 @@ func c03Scenarios() []*c03Scn {
 	netWide.maxConns = 4
 	netWide.closedOps = true // repeated Done must not return a subnet slot twice
 	// tiny alphabet, deep: a subnet slot must be returned exactly once however often Done is repeated
-	netDone := c03Alpha{eps: []int{c03EPv4, c03EPv4b}, dirs: in1, fds: []bool{false}, maxConns: 4, closedOps: true}
+	netDone := c03Alpha{eps: []int{c03EPv4, c03EPv4b, c03EPv4m}, dirs: in1, fds: []bool{false}, maxConns: 4, closedOps: true}
 	for _, c := range []netCfg{
 		{"caps /32=2,/24=2 (repeated Done)", nil, []c03SubnetCap{{32, 2}, {24, 2}}, c03LooseSub6, 0, 8, 9, netDone},
 		// standard scopes full from the start: every allow-listed endpoint goes through the fallback
